@@ -19,7 +19,7 @@ import (
 func init() {
 	register(&propDef{
 		id:      "C28",
-		explain: "Structural necessary condition of 'Args behaves as an insertion-ordered multimap': every function that moves elements inside a []argsKV (element stores fed by element loads, or copy() within one slice) is order-preserving by construction - copy shifts left by a constant, and no element is loaded from an index derived from the slice length (the tail) and stored at an index that is not; an entry moved to another slot has its old slot rewritten as well (swap, park or shift), so no two slots share key/value buffers - and every shortening of Args.args is [:0], the result of such a routine, or happens inside one; (coupling) every function of the Args machinery that assigns an entry's value also assigns its no-value flag on every path. (R-slot) a recycled entry handed out by allocArg (reslicing into spare capacity, so it still holds the previous occupant's key, value and flag) has key, value and no-value flag stored before it is kept - directly, or by argsScanner.next, whose every producing return stores all three (decided path-sensitively); (R-has) no boolean routine reached from Args.Has / HasBytes returns a value that depends on a byte slice compared with nil - presence is decided by the key comparison (an empty value in a never-used capacity slot is a nil slice); Not decided: agreement of Peek/Set/Add with a reference model over operation sequences, parsing and encoding.",
+		explain: "Structural necessary condition of 'Args behaves as an insertion-ordered multimap': every function that moves elements inside a []argsKV (element stores fed by element loads, or copy() within one slice) is order-preserving by construction - copy shifts left by a constant, and no element is loaded from an index derived from the slice length (the tail) and stored at an index that is not; an entry moved to another slot has its old slot rewritten as well (swap, park or shift), so no two slots share key/value buffers - and every shortening of Args.args is [:0], the result of such a routine, or happens inside one; (coupling) every function of the Args machinery that assigns an entry's value also assigns its no-value flag on every path. (R-slot) a recycled entry handed out by allocArg (reslicing into spare capacity, so it still holds the previous occupant's key, value and flag) has key, value and no-value flag stored before it is kept - directly, or by argsScanner.next, whose every producing return stores all three (decided path-sensitively); (R-has) no boolean routine reached from Args.Has / HasBytes returns a value that depends on a byte slice compared with nil - presence is decided by the key comparison (an empty value in a never-used capacity slot is a nil slice); (R-empty) Args.ParseBytes keeps a scanned entry under a condition made of the lengths of its key and of its value only (both involved, nothing else such as the has-'=' flag). Not decided: agreement of Peek/Set/Add with a reference model over operation sequences, parsing and encoding.",
 		run: func(p *Prog, r *Report) {
 			runKVOrder(p, r, "C28")
 			runKVCoupling(p, r)
@@ -30,7 +30,7 @@ func init() {
 	})
 	register(&propDef{
 		id:      "C29",
-		explain: "Structural necessary conditions of 'headers behave as an ordered case-insensitive multimap': (E11) as for C28, for header.h / cookies storage of both header types; (sibling) the special header names handled by the set / peek / peekAll / del / serialise paths of each header type are the same set, so a name stored in a dedicated field by one operation is found by the others; (E7) CopyTo writes every field of the destination header from the same field of the source; (accumulate) the generic Set-Cookie paths of the response header (setter switch and parser) append to the cookie list and never replace by key. (R-slot) a recycled entry handed out by allocArg has its key and value stored before it is kept, directly or by a scanner whose producing returns store them on every path; (R-iter) in the serialisers, the branch guarding the write of a stored field does not flow from a boolean merged at the head of the loop over the fields - the fate of a field depends on that field alone; (R-single) for a special name whose other values are kept in the generic list (Connection), every path of its case in setSpecialHeader stores into or deletes from that list, so a second Set replaces the first; (R-del) every path through RequestHeader.del removes the asked-for name from the generic field list (or collects the lazily kept Cookie lines first), whatever special case it took; Not decided: model agreement over operation sequences, parse/serialise round trip.",
+		explain: "Structural necessary conditions of 'headers behave as an ordered case-insensitive multimap': (E11) as for C28, for header.h / cookies storage of both header types; (sibling) the special header names handled by the set / peek / peekAll / del / serialise paths of each header type are the same set, so a name stored in a dedicated field by one operation is found by the others; (E7) CopyTo writes every field of the destination header from the same field of the source; (accumulate) the generic Set-Cookie paths of the response header (setter switch and parser) append to the cookie list and never replace by key. (R-slot) a recycled entry handed out by allocArg has its key and value stored before it is kept, directly or by a scanner whose producing returns store them on every path; (R-iter) in the serialisers, the branch guarding the write of a stored field does not flow from a boolean merged at the head of the loop over the fields - the fate of a field depends on that field alone; (R-single) for a special name whose other values are kept in the generic list (Connection), every path of its case in setSpecialHeader stores into or deletes from that list, so a second Set replaces the first; (R-del) every path through RequestHeader.del removes the asked-for name from the generic field list (or collects the lazily kept Cookie lines first), whatever special case it took; (R-collect) collectCookies removes from the generic list every line it parsed into the cookie list - a shrinking store inside the iteration, or a deleter that compares stored names case-insensitively like the recognition does. Not decided: model agreement over operation sequences, parse/serialise round trip.",
 		run: func(p *Prog, r *Report) {
 			runKVOrder(p, r, "C29")
 			runHeaderSiblings(p, r)
